@@ -92,10 +92,15 @@ fn body(c: &Case) -> Result<(), String> {
             libc::close(p2c[0]);
             drop(rx);
             tx.send((77, to_send)).map_err(|e| format!("send: {}", e))?;
+            let mut later = Vec::new();
             if c.read_after_drop {
                 drop(originals);
                 drop(clones);
                 drop(tx);
+                for (i, &len) in c.lens.iter().enumerate() {
+                    later.push(IpcSharedMemory::from_byte(0xE0 | i as u8, len));
+                    later.push(IpcSharedMemory::from_bytes(&pattern(len, 900 + i as u64)));
+                }
             }
             let b = [1u8];
             libc::write(p2c[1], b.as_ptr() as *const _, 1);
@@ -113,13 +118,21 @@ fn body(c: &Case) -> Result<(), String> {
     if n != 77 {
         return Err("data next to the regions changed".into());
     }
+    let mut later = Vec::new();
     if c.read_after_drop {
         drop(originals);
         drop(clones);
         drop(tx);
         drop(rx);
+        // the sender goes on and creates new regions of exactly the same lengths with other contents:
+        // what the receiver holds must not change
+        for (i, &len) in c.lens.iter().enumerate() {
+            later.push(IpcSharedMemory::from_byte(0xE0 | i as u8, len));
+            later.push(IpcSharedMemory::from_bytes(&pattern(len, 900 + i as u64)));
+        }
     }
     check_all(&regs, c, "receiver")?;
+    drop(later);
     // a clone made on the receiving side reads the same, too
     let again: Vec<IpcSharedMemory> = regs.iter().map(|r| r.clone()).collect();
     drop(regs);
@@ -132,7 +145,7 @@ fn cfg_of(_: &Case) -> Cfg {
 
 pub fn cases(tier: Tier) -> Vec<Case> {
     let p = 4096usize;
-    let mut lens: Vec<usize> = vec![0, 1, 2, p - 1, p, p + 1, 2 * p - 1, 2 * p, 2 * p + 1, 1 << 20];
+    let mut lens: Vec<usize> = vec![0, 1, 2, 7, 9, p - 1, p, p + 1, 2 * p - 1, 2 * p, 2 * p + 1, 1 << 20, (2 << 20) + 1, (3 << 20) - 1];
     if !tier.is_quick() {
         lens.push(32 << 20);
         lens.push(3 * p + 17);
@@ -230,7 +243,7 @@ pub fn run(tier: Tier, part_only: bool) -> i32 {
             Err(e) => rep.machinery(e),
         }
     }
-    rep.set("rule", json!("case = (lengths of the regions in one message, constructor from_bytes(pattern) / from_byte, clones made before sending 0..3, reader = same process or a forked child, read on receipt or after every sender-side copy and the carrying channel were dropped); single regions for every length in {0,1,2,P-1,P,P+1,2P-1,2P,2P+1,1 MiB (+32 MiB, 3P+17 thorough)} x all combinations, every ordered pair and triple of distinct boundary lengths, rotations of 4 (..8) regions; on the os, memfd and in-process builds (no forked reader in-process); distinct by construction, all non-trivial"));
+    rep.set("rule", json!("case = (lengths of the regions in one message, constructor from_bytes(pattern) / from_byte, clones made before sending 0..3, reader = same process or a forked child, read on receipt or after every sender-side copy and the carrying channel were dropped and the sender created new regions of the same lengths with other contents); single regions for every length in {0,1,2,7,9,P-1,P,P+1,2P-1,2P,2P+1,1 MiB,2 MiB+1,3 MiB-1 (+32 MiB, 3P+17 thorough)} x all combinations, every ordered pair and triple of distinct boundary lengths, rotations of 4 (..8) regions; on the os, memfd and in-process builds (no forked reader in-process); distinct by construction, all non-trivial"));
     rep.set("exhaustive", json!(true));
     rep.assume("platform-level zero-length regions are C18's; here the public IpcSharedMemory API is used");
     rep.finish()
